@@ -58,11 +58,14 @@ class Script:
             cnow, snow = self.seqs()
             mine_now, peer_now = (cnow, snow) if name.startswith("client") else (snow, cnow)
             if rng.random() < 0.7:
-                ov_seq = rng.choice([0, 5, 2**32 - 1, rng.getrandbits(32), mine_now, mine_now])
-                kw["seq"] = ov_seq
+                # (a literal above 2^32 - 1 is a legal integer for a u32 parameter: it is taken modulo 2^32)
+                lit = rng.choice([0, 5, 2**32 - 1, rng.getrandbits(32), mine_now, mine_now, 2**32 + 1024, 2**32 + mine_now, 2**64 - 1])
+                kw["seq"] = lit
+                ov_seq = lit % M32
             if rng.random() < 0.5:
-                ov_ack = rng.choice([0, 9, 2**32 - 2, rng.getrandbits(32), peer_now])
-                kw["ack"] = ov_ack
+                lit = rng.choice([0, 9, 2**32 - 2, rng.getrandbits(32), peer_now, 2**32 + 7, 2**33 + peer_now])
+                kw["ack"] = lit
+                ov_ack = lit % M32
             if kw:
                 self.has_override = True
         segs = []
